@@ -632,6 +632,9 @@ func callSitePart(r *vcommon.Run, dir string) {
 		compSeen[id] = true
 		mu.Unlock()
 		desc := fmt.Sprintf("%s, server presents %s, configured fingerprint %s (TLS %s)", id, c.cert.name, c.fpName, verName(c.ver))
+		if res.serverErr == "" {
+			res.serverErr = "no completed handshake was delivered to the listener"
+		}
 		switch {
 		case c.fp != "" && want && !res.completed:
 			pend[i] = &pendingV{"callsite:" + id + ":pinned-rejected",
